@@ -363,6 +363,16 @@ func report(cfg *config, e *Engine, results []*funcResult, tLoad, tGen, tSolve, 
 		for _, u := range undecided {
 			fmt.Println("  undecided:", u)
 		}
+		for _, r := range rows {
+			if r.Status == "sat" || r.Status == "unknown" || r.Status == "timeout" {
+				for _, o := range r.inst {
+					if o.Status == r.Status {
+						fmt.Printf("    %s [%s] trace: %s\n      query: %s\n", r.Name, o.Status, o.Trace, o.Query)
+						break
+					}
+				}
+			}
+		}
 		for _, o := range oor {
 			fmt.Println("  out-of-reach:", o)
 		}
